@@ -1050,3 +1050,108 @@ def gen_bounded(rng, tier):
         else:
             ops.append(f"{name} hex:{s.hex()}")
     return ops
+
+
+# ---------------------------------------------------------------- C18 allocation failure sweeps
+def gen_oom(rng, tier):
+    ops = []
+    quick = tier == "quick"
+    reps = 2 if quick else 12
+    lens = [1, 2, 5, 16, 17, 18, 33, 100, 300] + ([] if quick else [1000, 5000, 20000])
+    for n in lens:
+        for _ in range(reps):
+            # dictionaries with <= 16 / > 16 distinct values
+            card = rng.choice([1, 2, 15, 16, 17, 40, 300])
+            spec = f"@u:{hx(rng.getrandbits(60))}:{hx(n)}:{hx(rng.choice([0, 1 << 40]))}:{hx(card)}"
+            for what in ("enc", "size", "dec", "into"):
+                ops.append(f"oom.dict op={what} {spec}")
+            ops.append(f"oom.dictbuild {arr_spec(rng, rng.choice([1, 5, 16, 17, 40]))} {spec}")
+            ops.append(f"oom.dictbuild {spec} {arr_spec(rng, rng.choice([1, 16, 17, 64]))}")
+            # PFOR with and without exceptions
+            for t in (0x5a, 0x5f, 0x63, 0x64):
+                ops.append(f"oom.pfor op=enc t={hx(t)} @o:{hx(rng.getrandbits(60))}:{hx(n)}:{hx(rng.choice([0, 1000]))}:{hx(rng.choice([255, 65535, 1 << 40]))}")
+            ops.append(f"oom.pfor op=enc t=5f @c:1:{hx(n)}:{hx(rng.getrandbits(20))}:0")
+            ops.append(f"oom.pfor op=compute t=5f {arr_spec(rng, n)}")
+    # float: all-special arrays have no mantissa block
+    specials = [0, 1 << 63, 0x7FF0000000000000, 0xFFF0000000000000, 0x7FF8000000000001, 1, (1 << 52) - 1]
+    for n in [1, 3, 8, 40]:
+        for p in range(4):
+            for m in range(3):
+                vals = [rng.choice([dbits(1.5), dbits(-2.25e10), dbits(1e-5), rng.getrandbits(62) | (1 << 61)] + specials)
+                        for _ in range(n)]
+                ops.append(f"oom.float op=enc p={p} m={m} {explicit(vals)}")
+                ops.append(f"oom.float op=dec p={p} m={m} {explicit(vals)}")
+                sp = [rng.choice(specials) for _ in range(n)]
+                ops.append(f"oom.float op=dec p={p} m={m} {explicit(sp)}")
+    # adaptive: every leaf of the decision tree, automatic and forced, encode and decode
+    for op in gen_adaptive(rng, "quick", slice_only=True):
+        body = op.split(" ", 1)[1]
+        n_tok = body.split(" ")[0]
+        if n_tok.startswith("@"):
+            cnt = int(n_tok.split(":")[2], 16)
+        else:
+            cnt = int(n_tok, 16)
+        if cnt == 0 or cnt > (1100 if quick else 20000):
+            continue
+        ops.append(f"oom.adaptive op=enc t=auto {body}")
+        if rng.random() < 0.5:
+            ops.append(f"oom.adaptive op=dec t=auto {body}")
+    for n in [1, 2, 17, 100, 300]:
+        for t in (0, 1, 2, 3, 5):
+            spec = arr_spec(rng, n)
+            ops.append(f"oom.adaptive op=enc t={t} {spec}")
+            ops.append(f"oom.adaptive op=dec t={t} {spec}")
+        span = min(65535, n * rng.choice([1, 3, 40]))
+        if span >= n:
+            vals = sorted(rng.sample(range(0, span + 1), n))
+            ops.append(f"oom.adaptive op=enc t=4 {explicit(vals)}")
+            ops.append(f"oom.adaptive op=dec t=4 {explicit(vals)}")
+    # a sorted array with duplicates below 65536: the analysis must not be fooled by a refused request
+    for n in (50, 400):
+        vals = sorted(rng.randrange(0, 3 * n) for _ in range(n))
+        ops.append(f"oom.adaptive op=enc t=auto {explicit(vals)}")
+        rng.shuffle(vals)
+        ops.append(f"oom.adaptive op=enc t=auto {explicit(vals)}")
+    ops.append(f"oom.adaptive op=enc t=4 {explicit(sorted(rng.sample(range(65536), 5000)))}")
+    # bitmap: every operation from states of every container type and around every growth point
+    def hist(kind):
+        if kind == "empty":
+            return []
+        if kind == "small":
+            return ["addm:" + ",".join(hx(v) for v in rng.sample(range(65536), rng.choice([1, 15, 16, 17, 31, 32, 33])))]
+        if kind == "array":
+            return [f"addr:{hx(lo)}:{hx(lo + k)}" for lo, k in [(rng.randrange(0, 30000), rng.choice([100, 1000, 4095, 4096]))]]
+        if kind == "bitmap":
+            lo = rng.randrange(0, 20000)
+            return [f"add:{hx(rng.randrange(65536))}", f"addr:{hx(lo)}:{hx(lo + rng.choice([4097, 4200, 9000]))}"]
+        if kind == "bitmap-edge":   # exactly 4097 members in a BITMAP container: one removal triggers the conversion
+            lo = rng.randrange(0, 20000)
+            return [f"add:{hx(lo)}", f"addr:{hx(lo)}:{hx(lo + 4097)}"]
+        if kind == "runs":
+            lo = rng.randrange(0, 20000)
+            return [f"addr:{hx(lo)}:{hx(lo + rng.choice([4097, 5000, 30000]))}"]
+        if kind == "cleared-runs":
+            return ["addr:0:2000", "clear"]
+        return []
+    kinds = ["empty", "small", "array", "bitmap", "bitmap-edge", "runs", "cleared-runs"]
+    for ka in kinds:
+        for _ in range(1 if quick else 6):
+            h = hist(ka)
+            probe = rng.randrange(65536)
+            finals = ["create", "clone", "dec", f"add:{hx(probe)}", f"rem:{hx(probe)}", f"addr:{hx(probe % 60000)}:{hx(probe % 60000 + rng.choice([1, 20, 300]))}",
+                      f"remr:{hx(probe % 60000)}:{hx(probe % 60000 + rng.choice([1, 20]))}", "addr:100:2000", "addr:0:1400",
+                      "addm:" + ",".join(hx(v) for v in rng.sample(range(65536), 20))]
+            # a member to remove / a non-member to add, when the history is one range
+            for tok in h:
+                if tok.startswith("addr:"):
+                    lo, hi = [int(x, 16) for x in tok.split(":")[1:]]
+                    finals += [f"rem:{hx(lo)}", f"rem:{hx(hi - 1)}", f"add:{hx(hi % 65536)}", f"remr:{hx(lo)}:{hx(lo + 3)}"]
+            for f in finals:
+                ops.append(f"oom.bitmap op={f} " + " ".join(h))
+            for kb in (["small", "array", "runs"] if quick else kinds):
+                hb = ["b." + t for t in hist(kb)]
+                for alg in ("or", "and", "xor", "andnot"):
+                    if quick and ka in ("bitmap", "runs", "bitmap-edge") and kb == "runs" and alg in ("or", "xor"):
+                        continue    # thousands of requests: thorough tier only
+                    ops.append(f"oom.bitmap op={alg} " + " ".join(h + hb))
+    return ops
